@@ -827,6 +827,7 @@ def judge_session(out, S):
         allowed |= {'tmp'}
     for name in sorted(S['top'] - allowed):
         what = ('staging-dir' if name == 'tmp' else
+                'saved-dir-of-unreported-fault' if name.isdigit() and int(name) in pure.reported else
                 'saved-dir-of-non-faulty-pid' if name.isdigit() else 'other')
         v.add({'rule': 'leftover', 'cause': 'unexplained', 'what': what, 'keep_all': S['keep_all']},
               '<session>/%s exists at the end of the session' % name)
@@ -1211,10 +1212,6 @@ def main(prop, tier):
         for j in range((2 if quick else 8) if 'session' in parts_on else 0):
             cells.append(('cell_session', {'lang': lang, 'count': 12 if quick else 16,
                                            'seed': common.h32(seed, 'ses', lang, j), 'runid': runid}))
-    results = []
-    by_fn = {}
-    for fn, c in cells:
-        by_fn.setdefault(fn, []).append(c)
     # one fan-out: every cell carries its entry point
     all_cells = [dict(c, _fn=fn) for fn, c in cells]
     results = common.run_cells(TARGET + 'cell_any', all_cells, 'C15-%s' % runid, timeout=900)
@@ -1292,6 +1289,25 @@ def replay(prop, path):
     try:
         if w.get('part') == 'session' and w.get('script'):
             session_in_process(out, rig, w['script'], {})
+        elif w.get('part') == 'cli' and w.get('audit') and w.get('history'):
+            # an end-of-session finding of a CLI session: re-run the same batches as a
+            # scripted session through the real main() (same options, scripted programs)
+            o = w['options']
+            progs = {}
+            for hb in w['history']:
+                crash = hb['crash']
+                for sp in hb['batch']:
+                    sp = dict(sp)
+                    if crash and sp['kind'] != 'T':
+                        sp['crash'], crash = True, False
+                    progs[str(sp['pid'])] = sp
+            for pid in range(1, o['iterations'] + 1):
+                progs.setdefault(str(pid), spec_of('C:K', pid))
+            script = {'lang': lang, 'iterations': o['iterations'], 'batch': o['batch'],
+                      'workers': o['workers'], 'keep_all': o['keep_all'], 'max_sleep_ms': 0,
+                      'seed': 0, 'progs': progs}
+            print('re-running the session in process: %s, %d programs' % (o, len(progs)))
+            session_in_process(out, rig, script, {})
         else:
             hist = w.get('history') or [{'batch': w['batch'], 'crash': w.get('crash', False)}]
             tdir = rig.new_session_dir('r')
